@@ -613,7 +613,9 @@ def check(run):
     # from one iteration to the next (C16_cg_error_monotone): the solver is stopped after 1, 2, 3, 5, 8, 13 iterations
     ecases = [c for c in scases if any(any(f) for _, f in c["ev"])][:(8 if quick else 60)]
     its = [1, 2, 3, 5, 8, 13]
-    elines = [div_line(c, "SOLVE", " %d %s" % (k, V.hexf(0.0))) for c in ecases for k in its]
+    # (tolerance 1e-9: once the residual is at rounding level the quotients <r,r>/<Ap,p> are noise and the
+    # exact-arithmetic statement says nothing; the comparison stops when the solver has stopped by itself)
+    elines = [div_line(c, "SOLVE", " %d %s" % (k, V.hexf(1e-9))) for c in ecases for k in its]
     rce, eout, ee = V.run_lines(unit, elines)
     if len(eout) == len(elines):
         for ci, c in enumerate(ecases):
@@ -625,6 +627,7 @@ def check(run):
                 b, x = parse_floats(p[1]), parse_floats(p[2])
                 if not finite(x):
                     break
+                stopped = int(p[0][1]) < k
                 Ax = [float(v) for v in lap_oracle({"nd": c["nd"], "per": c["per"], "nxp": nxp, "w": c["w"]}, x)]
                 F = sum(u * v for u, v in zip(b, x)) - 0.5 * sum(u * v for u, v in zip(x, Ax))
                 scaleF = max(1.0, abs(F), abs(prev))
@@ -634,6 +637,8 @@ def check(run):
                                   % (prev, prev_k, F, k, elines[ci * len(its) + ki][:300]), {"kind": "unit", "case": elines[ci * len(its) + ki], "impl": so[:2000]})
                     break
                 prev, prev_k = F, k
+                if stopped:
+                    break
         run.dist("solve:energy-monotone-cases", len(ecases))
     else:
         run.violation("unit:crash", "the C16 unit driver died in the energy stream (rc=%d): %s" % (rce, ee[-300:]), {"kind": "unit", "case": elines[len(eout)] if len(eout) < len(elines) else None})
@@ -655,7 +660,7 @@ def check(run):
                           "atimes indexes its arrays outside the grid when a periodic dimension has a single point: %s [case: %s]" % (go[0].split("|", 1)[1], l[:300]),
                           {"kind": "unit", "case": l, "impl": go[0]})
         elif not go[0].startswith("REFUSED"):
-            run.violation("atimes:single-point-periodic-dimension-accepted", "a PMF grid with one point in a periodic dimension was neither refused nor caught indexing outside: %s [case: %s]" % (go[0][:200], l[:300]),
+            run.violation("atimes:out-of-bounds:single-point-periodic-dimension", "a PMF grid with one point in a periodic dimension was not refused (the sentinels did not catch an access outside on this shape): %s [case: %s]" % (go[0][:200], l[:300]),
                           {"kind": "unit", "case": l, "impl": go[0]})
         else:
             if "input" not in go[0] or "iter=0" not in go[0] or "data_untouched=1" not in go[0] or "err=-1" not in go[0]:
